@@ -618,7 +618,7 @@ Proof.
   assert (Hadd : added_msg s (EB (ECmd c msg o)) = []).
   { cbn. rewrite Hl, Ht. destruct t; try reflexivity. congruence. }
   rewrite (step_cmd cfg s c msg o t cs Hl Ht).
-  set (s0 := set_log s [LFrame c (FAck (m_id msg)) (is_clean s)]).
+  set (s0 := set_log s [LFrame c (FAck (m_id msg)) (is_clean s) (now s)]).
   pose proof (dispatch_R c t msg o s0 Ht Hna Hnc) as H. unfold wp in H.
   destruct (dispatch cfg c t msg o s0) as [u s1|e s1].
   - assert (H' : R true (P_cmd s c msg) s s1) by exact H.
@@ -733,7 +733,7 @@ Proof.
     destruct Hcm as [m Hcm].
     destruct (cl_open_body_eval (chan_w s) a m side (now s)) as [[Hf Hclash]|Hok].
     + rewrite (step_cmd cfg s c msg o TClose cs Hl Ht).
-      set (s0 := set_log s [LFrame c (FAck (m_id msg)) (is_clean s)]).
+      set (s0 := set_log s [LFrame c (FAck (m_id msg)) (is_clean s) (now s)]).
       assert (Hc0 : conn_of s0 c = cs) by (unfold conn_of, s0; cbn [conns set_log]; rewrite Hl; reflexivity).
       rewrite (dispatch_bound cfg c TClose msg o s0 a side)
         by (try discriminate; rewrite Hc0; exact Hb).
